@@ -83,7 +83,7 @@ def state_fn(conf, hist, G, M):
 
 def run(tier, seed):
     return base.run_state_property(
-        PROP, LEVEL, state_fn, tier, seed, vacuity={'states_multi_run': 10, 'derived_graphs': 1000},
+        PROP, LEVEL, state_fn, tier, seed, thorough_full=(0, 1), vacuity={'states_multi_run': 10, 'derived_graphs': 1000},
         sample_fn=base.default_samples,
         rule='BFS over add_* histories (U1,U2,TWO,U3), both classes, removal enabled; in every distinct state every timeline exposed by '
              'interactions()/in_/out_interactions() (all nodes as nbunch too) is checked: [s,e] pairs, s<=e, gaps >= 1 absent instant, union '
